@@ -37,14 +37,34 @@ namespace c06
     }
   }
 
+  static int g_pvmode = 0; // value mode of the prescribed values (see pval)
+  static int g_xneg = 0;   // 1: all vector entries negative
   /// vector entry alphabet: position coded dyadic, never equal to a prescribed value (those are >= 8 in magnitude)
   inline LD xval(Index i, int salt = 0)
   {
     const int k = 1 + int((3 * i + Index(salt) + (i * i) % 5) % 9);
+    if(g_xneg) return -LD(k) / LD(4);
     return (((i + Index(salt)) % 2) ? -1 : 1) * LD(k) / LD(4);
   }
+  /// value mode of the prescribed values: 0 = position coded (|v| >= 8), 1 = exactly 0 / 1 / -1 cycling (early-out values),
+  /// 2 = extreme magnitudes of the data type (set per case by the sections that enumerate it)
   /// prescribed (Dirichlet) value of entry i, filter number f
-  inline LD pval(Index i, int f = 0) { return ((i % 2) ? -1 : 1) * (LD(8) + LD(i) / 2 + LD(4 * f)); }
+  inline LD pval(Index i, int f = 0)
+  {
+    if(g_pvmode == 1) { static const int t[3] = {0, 1, -1}; return LD(t[(i + Index(f)) % 3]); }
+    return ((i % 2) ? -1 : 1) * (LD(8) + LD(i) / 2 + LD(4 * f));
+  }
+  /// extreme value table per data type (mode 2)
+  template<typename DT> DT pval_dt(Index i, int f = 0)
+  {
+    if(g_pvmode == 2)
+    {
+      typedef std::numeric_limits<DT> NL;
+      const DT t[5] = {DT(NL::max() / DT(2)), DT(-NL::min()), DT(NL::denorm_min() * DT(3)), DT(-(NL::max() / DT(4))), NL::min()};
+      return t[(i + Index(f)) % 5];
+    }
+    return DT(pval(i, f));
+  }
 
   template<typename V> std::vector<typename V::DataType> flat_of(V& v)
   {
@@ -218,18 +238,18 @@ namespace c06
 
   // -------------------------------------------------------------------------------------- matrices
   /// CSR matrix with the given 0/1 pattern (bit i*m+j), values position coded
-  template<typename DT>
-  SparseMatrixCSR<DT, Index> make_csr(int n, int m, unsigned pattern, int salt = 0)
+  template<typename DT, typename IT = Index>
+  SparseMatrixCSR<DT, IT> make_csr(int n, int m, unsigned pattern, int salt = 0)
   {
     Index nnz = 0; for(int b = 0; b < n * m; ++b) if((pattern >> b) & 1u) ++nnz;
-    SparseMatrixCSR<DT, Index> a(Index(n), Index(m), nnz);
-    Index k = 0;
+    SparseMatrixCSR<DT, IT> a(Index(n), Index(m), nnz);
+    IT k = 0;
     a.row_ptr()[0] = 0;
     for(int i = 0; i < n; ++i)
     {
       for(int j = 0; j < m; ++j) if((pattern >> (i * m + j)) & 1u)
       {
-        a.col_ind()[k] = Index(j);
+        a.col_ind()[k] = IT(j);
         a.val()[k] = DT(((i + j + salt) % 2 ? -1 : 1) * LD(2 + ((3 * i + 5 * j + salt) % 7)) / LD(2));
         ++k;
       }
@@ -264,7 +284,7 @@ namespace c06
 
   template<typename M> struct MatSnap
   {
-    std::vector<typename M::DataType> val; std::vector<Index> rp, ci; Index rows, cols, used;
+    std::vector<typename M::DataType> val; std::vector<typename M::IndexType> rp, ci; Index rows, cols, used;
     explicit MatSnap(const M& a) : rows(a.rows()), cols(a.columns()), used(a.used_elements())
     {
       const Index nv = a.template used_elements<Perspective::pod>();
